@@ -14,6 +14,8 @@ placement `p` (centres and sizes of src and tgt); `sat_iff_vpsc` ties it to the 
 import AdaptaVerif.Lemmas.SepTransform
 import AdaptaVerif.Lemmas.SepMatrix
 import AdaptaVerif.Lemmas.SepTglf
+import AdaptaVerif.Lemmas.SepTglfMatrix
+import AdaptaVerif.Lemmas.SepReach
 namespace AdaptaVerif.Props.C18
 open AdaptaVerif.Num AdaptaVerif.Model.Sep AdaptaVerif.Spec.Sep AdaptaVerif.Lemmas.Sep
 open AdaptaVerif.Model.Sep.SepMatrix
@@ -42,6 +44,13 @@ theorem sat_iff_vpsc (extra : Rat) (sp : SepPair) (size : Nat → Dim → Rat) (
 theorem transform_equivariant (extra : Rat) (sp : SepPair) (tf : SepTransform) (p : Placement) :
     Sat extra sp p ↔ Sat extra (sp.transform tf) (p.apply tf) :=
   transform_equivariant' extra sp tf p
+
+/-- Matrix level: `SepMatrix::transform(tf)` commutes with the placement transform for the record of
+    every id pair `k` (an absent record constrains nothing), in every matrix state. -/
+theorem transform_equivariant_matrix (m : SepMatrix) (tf : SepTransform) (k : Nat × Nat) (pl : Placement) :
+    SatOpt m.extraBdryGap (m.lookup k) pl ↔
+      SatOpt (m.transform tf).extraBdryGap ((m.transform tf).lookup k) (pl.apply tf) :=
+  transform_equivariant_matrix' m tf k pl
 
 /-! ## (2) the transforms compose like the symmetry group of the square — with plain equality -/
 
@@ -240,5 +249,58 @@ example : (∃ ls, roundtripExample.writeTglf (3 / 2) = some ls) ∧
   · exact ⟨200500, by norm_num [pow10, roundtripExample]⟩
   · exact ⟨0, by norm_num [pow10, roundtripExample]⟩
   · exact ⟨1500, by norm_num [pow10]⟩
+
+/-- Matrix level. For every well-formed matrix (`MatrixOK`: no two records under one key, every
+    record filed under `(src, tgt)` with `src < tgt`, gaps and the extra boundary gap multiples of
+    `10^-tglfPrecision` of the record): if `SepMatrix::writeTglf` produces the SEPCO lines `ls`, then
+    `readSepcos` on an empty matrix (a fresh graph, extra gap 0; either flag semantics) accepts them
+    and the matrix read back is `MatrixEquiv` to the original: for every id pair the same placements
+    satisfy both (records without any constraint are simply absent after the round trip).
+    Every matrix reachable by an `Op` history satisfies the structural part of `MatrixOK`
+    (`reachable_structOK`); the multiples part is a hypothesis on the values. -/
+theorem tglf_roundtrip_matrix (fixedFlag : Bool) (m : SepMatrix) (hm : MatrixOK m) (ls : List TglfLine)
+    (hw : m.writeTglf = some ls) :
+    ∃ m', readSepcos fixedFlag ls = some m' ∧ m'.extraBdryGap = 0 ∧ MatrixEquiv m' m :=
+  tglf_roundtrip_matrix' fixedFlag m hm ls hw
+
+/-- Every state reachable from the empty matrix by any `Op` history (17 operation kinds, either flag
+    semantics) is sorted by key and files each record under its own `(src, tgt)` with `src < tgt`. -/
+theorem reachable_structOK (fixedFlag : Bool) (ops : List Op) : StructOK (runOps fixedFlag .empty ops) :=
+  reachable_structOK' fixedFlag ops
+
+/-- The matrix-level round trip for every reachable state whose stored values are multiples of
+    `10^-precision` (`ValuesOK`). -/
+theorem tglf_roundtrip_reachable (histFlag readFlag : Bool) (ops : List Op)
+    (hv : ValuesOK (runOps histFlag .empty ops)) (ls : List TglfLine)
+    (hw : (runOps histFlag .empty ops).writeTglf = some ls) :
+    ∃ m', readSepcos readFlag ls = some m' ∧ m'.extraBdryGap = 0 ∧
+      MatrixEquiv m' (runOps histFlag .empty ops) :=
+  tglf_roundtrip_matrix readFlag _ (matrixOK_of_structOK _ (reachable_structOK histFlag ops) hv) ls hw
+
+/-- a two-record history with extra gap 2: "1 WEST of 0, boundaries ≥ 200 apart" (addressed in
+    reverse), "2 below-right of 0" -/
+def roundtripHistory : List Op :=
+  [.setExtraBdryGap 2, .addSep 1 0 .bdry .east .ineq ⟨false, 200⟩,
+   .addSep 0 2 .centre .right .ineq ⟨false, 7⟩, .addSep 0 2 .bdry .down .eq ⟨true, 0⟩]
+
+/-- non-vacuity: the history's state has the values property and is written -/
+example : ValuesOK (runOps true .empty roundtripHistory) ∧
+    ∃ ls, (runOps true .empty roundtripHistory).writeTglf = some ls := by
+  have hp : (runOps true .empty roundtripHistory).pairs =
+      [((0, 1), { src := 0, tgt := 1, xgt := .bdry, xst := .ineq, xgap := ⟨true, 200⟩, ygt := .centre,
+                  yst := .eq, ygap := ⟨false, 0⟩, flippedRetrieval := true }),
+       ((0, 2), { src := 0, tgt := 2, xgt := .centre, xst := .ineq, xgap := ⟨false, 7⟩, ygt := .bdry,
+                  yst := .eq, ygap := ⟨true, 0⟩, flippedRetrieval := false })] := by decide
+  have he : (runOps true .empty roundtripHistory).extraBdryGap = 2 := by decide
+  constructor
+  · intro e hmem
+    rw [hp] at hmem
+    rw [he]
+    simp only [List.mem_cons, List.not_mem_nil, or_false] at hmem
+    rcases hmem with rfl | rfl
+    · exact ⟨⟨200000, by norm_num [pow10]⟩, ⟨0, by norm_num [pow10]⟩, ⟨2000, by norm_num [pow10]⟩⟩
+    · exact ⟨⟨7000, by norm_num [pow10]⟩, ⟨0, by norm_num [pow10]⟩, ⟨2000, by norm_num [pow10]⟩⟩
+  · rw [writeTglf_eq_writeL, hp, he]
+    simp [writeL, SepPair.writeTglf, SZ.isZero, SZ.signbit]
 
 end AdaptaVerif.Props.C18
